@@ -63,13 +63,18 @@ EvenReq(n) == IF n <= 0 THEN 0 ELSE n - (n % 2)
 
 ---------------------------------------------------------------------------
 (* (2) footprint.  F = [t, c, so, lb, rb]: sample type, container size, sample offset and the byte
-   positions of the left / right pointer inside the caller's memory; nf frames are stored *)
+   positions of the left / right pointer inside the caller's memory; nf frames are stored.
+   The memory image is byte-addressed: sample i of a channel occupies the c bytes from
+   pointer + i * so, where so (the record stride) counts BYTES and is independent of the container -
+   it need not be a multiple of c and the pointers need not be aligned to c (packed records, planes
+   with a stride of c + 1, frames at odd addresses); nothing in this module assumes either. *)
 Base(F, ch) == IF ch = 0 THEN F.lb ELSE F.rb
+SlotAt(F, ch, i) == Base(F, ch) + i * F.so
 InPlane(b, base, so, c, nf) ==
   /\ nf > 0 /\ b >= base
   /\ IF so > 0 THEN (b - base) \div so < nf /\ (b - base) % so < c ELSE b - base < c
 InFoot(b, F, nf) == InPlane(b, F.lb, F.so, F.c, nf) \/ InPlane(b, F.rb, F.so, F.c, nf)
-FootSet(F, nf) == { Base(F, ch) + i * F.so + d : i \in 0..(nf - 1), ch \in {0, 1}, d \in 0..(F.c - 1) }
+FootSet(F, nf) == { SlotAt(F, ch, i) + d : i \in 0..(nf - 1), ch \in {0, 1}, d \in 0..(F.c - 1) }
 
 \* Changed bytes are recorded as strided runs q = <<start, len, stride, count>> (start relative to
 \* position `off` of the caller's memory).  RunInLiteral is the definition.  RunIn is equivalent and
@@ -122,7 +127,7 @@ Send(mem, req, insz, g0, outpos, F, track) ==
   ELSE IF ~Supported(F.t, F.c) THEN [rc |-> -1, mem |-> mem]
   ELSE LET fr == Min(req - outpos, insz * 2) \div 2
            o  == outpos \div 2
-       IN [rc |-> 0, mem |-> IF ~track THEN mem ELSE mem \cup { <<Base(F, ch) + (o + j) * F.so + d, ch, g0 + j, d>> :
+       IN [rc |-> 0, mem |-> IF ~track THEN mem ELSE mem \cup { <<SlotAt(F, ch, o + j) + d, ch, g0 + j, d>> :
                                           j \in 0..(fr - 1), ch \in {0, 1}, d \in 0..(F.c - 1) }]
 
 \* opn2_generateFormat
